@@ -508,7 +508,7 @@ static void pton_grammar(unsigned long count)
     char buf[128];
     for (ii = 0; ii < count; ++ii) {
         irc_inaddr net;
-        unsigned int kind = rnd() % 10, a = rnd() & 255, b = rnd() & 255, c = rnd() & 255, d = rnd() & 255, n, g, k;
+        unsigned int kind = rnd() % 11, a = rnd() & 255, b = rnd() & 255, c = rnd() & 255, d = rnd() & 255, n, g, k;
         memset(&net, 0, sizeof(net));
         switch (kind) {
         case 0: /* a.b.c.d/n */
@@ -582,6 +582,19 @@ static void pton_grammar(unsigned long count)
             if (k == 2) sprintf(buf, "%u.%u/%u", a, b, n);
             else { sprintf(buf, "%u.%u.%u/%u", a, b, c, n); net.in6_8[14] = c; }
             check_expect(buf, 96 + n, &net, 1);
+            break;
+        case 10: /* x:y/n, x:y:z/n: the IPv6 spelling of "missing trailing bits" - the groups given are the leading ones */
+            k = 2 + rnd() % 6;        /* (one group alone has no colon and is not an IPv6 text) */
+            n = rnd() % (16 * k + 1);
+            buf[0] = '\0';
+            for (g = 0; g < k; ++g) {
+                unsigned int v = rnd() & 0xffff;
+                if (g == 0 && v == 0) v = 0x2001;
+                net.in6[g] = htons(v);
+                sprintf(buf + strlen(buf), g ? ":%x" : "%x", v);
+            }
+            sprintf(buf + strlen(buf), "/%u", n);
+            check_expect(buf, n, &net, 1);
             break;
         case 6: /* plain dotted quad => 128 bits */
             sprintf(buf, "%u.%u.%u.%u", a, b, c, d);
